@@ -137,6 +137,14 @@ func (sr *SoftResource) SetID(id string) {
 func (sr *SoftResource) SetType(typ *Type) {
 	sr.check()
 	sr.Type = typ
+
+	// Values that are not valid under the new type are dropped and the
+	// fields will read as their zero value.
+	for key, v := range sr.data {
+		if !validFor(typ, key, v) {
+			delete(sr.data, key)
+		}
+	}
 }
 
 // Set sets the value associated to the field named key to v.
@@ -254,6 +262,30 @@ func (sr *SoftResource) check() {
 			}
 		}
 	}
+}
+
+// validFor reports whether v can be the value of the field of typ named key.
+func validFor(typ *Type, key string, v any) bool {
+	if typ == nil {
+		return false
+	}
+
+	if attr, ok := typ.Attrs[key]; ok {
+		t, nullable := GetAttrType(fmt.Sprintf("%T", v))
+		return attr.Type == t && attr.Nullable == nullable
+	}
+
+	if rel, ok := typ.Rels[key]; ok {
+		if rel.ToOne {
+			_, ok = v.(string)
+		} else {
+			_, ok = v.([]string)
+		}
+
+		return ok
+	}
+
+	return false
 }
 
 func copyData(d map[string]any) map[string]any {
